@@ -1,7 +1,10 @@
 """String2Key coded count (RFC 4880 3.7.1.3) and S2K specifier codec agreement (shared by C09.4 and C12.3/4)."""
 import ast
+import math
+from fractions import Fraction
+from numbers import Rational
 
-from .interp import Interp, Scenario, Sym, Const, Bytes, render, render_items, merge_consts, render_item
+from .interp import Interp, Scenario, Sym, Const, Bytes, Obj, render, render_items, merge_consts, render_item
 from .loader import AnalysisError
 from .sigdata import enum_const
 from . import codec
@@ -9,6 +12,10 @@ from . import codec
 
 class _NoFold(Exception):
     pass
+
+
+_BUILTINS = {'divmod': divmod, 'min': min, 'max': max, 'abs': abs, 'int': int, 'bool': bool, 'pow': pow, 'round': round,
+             'math.ceil': math.ceil, 'math.floor': math.floor, 'ceil': math.ceil, 'floor': math.floor, 'math.trunc': math.trunc}
 
 
 def fold(node, env):
@@ -26,7 +33,29 @@ def fold(node, env):
             for kn, vn in zip(node.value.keys, node.value.values):
                 if fold(kn, env) == k:
                     return fold(vn, env)
+        if isinstance(node, ast.Subscript) and not isinstance(node.slice, ast.Slice) and \
+                isinstance(node.value, (ast.Tuple, ast.Call, ast.Name)):
+            base = fold(node.value, env)
+            i = fold(node.slice, env)
+            if isinstance(base, tuple) and isinstance(i, int) and -len(base) <= i < len(base):
+                return base[i]
         raise _NoFold(t)
+    if isinstance(node, (ast.Tuple, ast.List, ast.Set)):
+        return tuple(fold(e, env) for e in node.elts)
+    if isinstance(node, ast.Call) and isinstance(node.func, ast.Name) and node.func.id == 'range' and 'range' not in env and \
+            not node.keywords and 1 <= len(node.args) <= 3:
+        args = [fold(a, env) for a in node.args]
+        if all(isinstance(a, int) for a in args) and (len(args) < 3 or args[2] != 0):
+            return range(*args)
+        raise _NoFold(ast.unparse(node))
+    if isinstance(node, ast.Call) and not node.keywords and ast.unparse(node.func) in _BUILTINS and ast.unparse(node.func) not in env:
+        args = [fold(a, env) for a in node.args]
+        if not all(isinstance(a, Rational) for a in args):
+            raise _NoFold(ast.unparse(node))
+        try:
+            return _BUILTINS[ast.unparse(node.func)](*args)
+        except Exception:
+            raise _NoFold(ast.unparse(node))
     if isinstance(node, ast.IfExp):
         return fold(node.body, env) if fold(node.test, env) else fold(node.orelse, env)
     if isinstance(node, ast.BinOp):
@@ -35,9 +64,15 @@ def fold(node, env):
         table = {ast.Add: lambda: a + b, ast.Sub: lambda: a - b, ast.Mult: lambda: a * b, ast.FloorDiv: lambda: a // b,
                  ast.Mod: lambda: a % b, ast.LShift: lambda: a << b, ast.RShift: lambda: a >> b, ast.BitAnd: lambda: a & b,
                  ast.BitOr: lambda: a | b, ast.BitXor: lambda: a ^ b, ast.Pow: lambda: a ** b}
+        if op is ast.Div and isinstance(a, Rational) and isinstance(b, Rational) and b != 0:
+            q = Fraction(a) / Fraction(b)           # exact true division (no float rounding in the checker)
+            return q
         if op not in table:
             raise _NoFold(ast.unparse(node))
-        return table[op]()
+        try:
+            return table[op]()
+        except (ZeroDivisionError, TypeError, ValueError, OverflowError):
+            raise _NoFold(ast.unparse(node))
     if isinstance(node, ast.UnaryOp) and isinstance(node.op, ast.USub):
         return -fold(node.operand, env)
     if isinstance(node, ast.Compare):
@@ -46,6 +81,13 @@ def fold(node, env):
             b = fold(cn, env)
             a = left
             op = type(opn)
+            if op in (ast.In, ast.NotIn):
+                if not isinstance(b, (tuple, range)):
+                    raise _NoFold(ast.unparse(node))
+                if (a in b) != (op is ast.In):
+                    return False
+                left = b
+                continue
             tbl = {ast.Lt: a < b, ast.LtE: a <= b, ast.Gt: a > b, ast.GtE: a >= b, ast.Eq: a == b, ast.NotEq: a != b}
             if op not in tbl:
                 raise _NoFold(ast.unparse(node))
@@ -61,6 +103,145 @@ def fold(node, env):
     raise _NoFold(ast.unparse(node))
 
 
+class _Leave(Exception):
+    def __init__(self, kind, value=None):
+        self.kind, self.value = kind, value
+
+
+def fold_fn(fn_node, env):
+    """Concrete evaluation of a small integer function by the checker's own evaluator (no repo code runs): constant
+    propagation over straight-line code with branches.  Understands assignments to local names / tuples of names / attributes
+    (`self.x = v`), augmented assignments, if / elif / else, assert, return, raise.  `env` maps names and dotted texts
+    (`self._count`) to integers; it is updated in place.
+
+    Returns ('return', value, stores) or ('raise', None, stores); stores = {dotted attribute text: value} in store order.
+    Anything else (loops, calls of repository code, non-integer values) raises _NoFold."""
+    stores = {}
+
+    def ev(node):
+        if isinstance(node, ast.NamedExpr) and isinstance(node.target, ast.Name):
+            env[node.target.id] = fold(node.value, env)
+            return env[node.target.id]
+        return fold(node, env)
+
+    def assign(t, v):
+        if isinstance(t, ast.Name):
+            env[t.id] = v
+        elif isinstance(t, (ast.Tuple, ast.List)):
+            if not isinstance(v, tuple) or len(v) != len(t.elts):
+                raise _NoFold(ast.unparse(t))
+            for x, y in zip(t.elts, v):
+                assign(x, y)
+        elif isinstance(t, ast.Attribute):
+            k = ast.unparse(t)
+            env[k] = v
+            stores[k] = v
+        else:
+            raise _NoFold(ast.unparse(t))
+
+    def block(stmts):
+        for st in stmts:
+            if isinstance(st, ast.Pass) or (isinstance(st, ast.Expr) and isinstance(st.value, ast.Constant)):
+                continue
+            if isinstance(st, ast.Assign):
+                v = ev(st.value)
+                for t in st.targets:
+                    assign(t, v)
+            elif isinstance(st, ast.AnnAssign):
+                if st.value is not None:
+                    assign(st.target, ev(st.value))
+            elif isinstance(st, ast.AugAssign):
+                cur = ev(st.target)
+                assign(st.target, ev(ast.BinOp(left=ast.Constant(cur), op=st.op, right=st.value))
+                       if isinstance(cur, int) else _nofold(st))
+            elif isinstance(st, ast.If):
+                block(st.body if ev(st.test) else st.orelse)
+            elif isinstance(st, ast.Assert):
+                if not ev(st.test):
+                    raise _Leave('raise')
+            elif isinstance(st, ast.Return):
+                raise _Leave('return', ev(st.value) if st.value is not None else None)
+            elif isinstance(st, ast.Raise):
+                raise _Leave('raise')
+            elif isinstance(st, ast.Delete) and all(isinstance(t, ast.Name) for t in st.targets):
+                for t in st.targets:
+                    env.pop(t.id, None)
+            else:
+                raise _NoFold(ast.unparse(st).splitlines()[0])
+
+    try:
+        block(fn_node.body)
+    except _Leave as lv:
+        return lv.kind, lv.value, stores
+    return 'return', None, stores
+
+
+def _nofold(node):
+    raise _NoFold(ast.unparse(node))
+
+
+def class_constants(prog, ci, first='self'):
+    """Integer constants a method of class `ci` can name: class-level NAME = <int> (as self.NAME / K.NAME / type(self).NAME ...)
+    and module-level NAME = <int>."""
+    env = {}
+    for name, node in ci.module.assigns.items():
+        try:
+            v = fold(node, {}) if isinstance(node, ast.AST) else None
+        except _NoFold:
+            continue
+        if isinstance(v, int):
+            env[name] = v
+    for c in reversed(ci.mro()):
+        for name, node in c.attrs.items():
+            try:
+                v = fold(node, env)
+            except _NoFold:
+                continue
+            if isinstance(v, int):
+                for base in (first, c.name, ci.name, 'type(%s)' % first, '%s.__class__' % first):
+                    env['%s.%s' % (base, name)] = v
+    return env
+
+
+def _count_setter_outcome(prog, setter, val):
+    """(raised?, {attribute text: stored value}) of the coded-count setter for the concrete argument `val`."""
+    pname = setter.params[1]
+    first = setter.params[0]
+    try:
+        env = class_constants(prog, setter.cls, first)
+        env[pname] = val
+        kind, _v, stores = fold_fn(setter.node, env)
+        return kind == 'raise', dict(stores)
+    except _NoFold:
+        pass
+    # not a closed integer function: the byte-term interpreter decides the branch(es) it can
+    sc = Scenario(args={pname: Const(val)}, inline=lambda f: False)
+    outs = Interp(prog, sc).run(setter)
+    raised = all(s.raised is not None for s in outs)
+    stores = {}
+    if not any(s.raised for s in outs):
+        for s in outs:
+            for (p, v, l, vv) in s.stores:
+                if isinstance(vv, Const) and isinstance(vv.value, int):
+                    stores[p] = vv.value
+    return raised, stores
+
+
+def count_backing(prog):
+    """The attribute that holds the coded count octet: what the int setter of String2Key.count stores its argument into."""
+    ci = prog.cls('pgpy.packet.fields', 'String2Key')
+    prop = ci.props.get('count')
+    setter = prop.setters.get('int') if prop is not None else None
+    if setter is None:
+        raise AnalysisError('String2Key.count int setter vanished')
+    raised, stores = _count_setter_outcome(prog, setter, 96)
+    first = setter.params[0]
+    hit = [k for k, v in stores.items() if v == 96 and k.startswith(first + '.')]
+    if raised or len(hit) != 1:
+        raise AnalysisError('String2Key.count int setter does not store the coded octet in one attribute (96 -> %s)' % stores)
+    return hit[0][len(first) + 1:]
+
+
 def check_count(rep, prog, rid):
     ci = prog.cls('pgpy.packet.fields', 'String2Key')
     prop = ci.props.get('count')
@@ -68,39 +249,37 @@ def check_count(rep, prog, rid):
         raise AnalysisError('String2Key.count property vanished')
     g = prop.getter
     rep.saw(fn=g)
-    rets = [n for n in ast.walk(g.node) if isinstance(n, ast.Return)]
-    if len(rets) != 1:
-        raise AnalysisError('String2Key.count getter: expected a single return')
-    expr = rets[0].value
+    backing = count_backing(prog)
+    first = g.params[0]
     bad = None
     try:
+        consts = class_constants(prog, ci, first)
         for c in range(256):
             want = (16 + (c & 15)) << ((c >> 4) + 6)          # RFC 4880 3.7.1.3, EXPBIAS = 6
-            got = fold(expr, {'self._count': c})
-            if got != want:
-                bad = (c, want, got)
+            env = dict(consts)
+            env['%s.%s' % (first, backing)] = c
+            kind, got, stores = fold_fn(g.node, env)
+            if kind != 'return' or got != want or stores:
+                bad = (c, want, got if kind == 'return' else 'raise')
                 break
     except _NoFold as ex:
-        raise AnalysisError('String2Key.count getter is not a closed arithmetic expression over self._count: %s' % ex)
-    rep.check(bad is None, rid, 'String2Key.count', 'return %s' % ast.unparse(expr),
+        raise AnalysisError('String2Key.count getter is not a closed arithmetic function of self.%s: %s' % (backing, ex))
+    rep.check(bad is None, rid, 'String2Key.count', 'decoded count',
               'decoded count differs from RFC 4880 3.7.1.3 (16 + (c & 15)) << ((c >> 4) + 6)'
-              + ('' if bad is None else ': c=%d gives %d, RFC gives %d' % (bad[0], bad[2], bad[1])),
-              where=g.where, expected='(16 + (c & 15)) << ((c >> 4) + 6) for all 256 coded values', found=ast.unparse(expr))
+              + ('' if bad is None else ': c=%d gives %s, RFC gives %d' % (bad[0], bad[2], bad[1])),
+              where=g.where, expected='(16 + (c & 15)) << ((c >> 4) + 6) for all 256 coded values',
+              found=' ; '.join(ast.unparse(x) for x in g.node.body))
     # setter: accepts exactly 0..255 and stores the coded octet
     setter = prop.setters.get('int')
-    if setter is None:
-        raise AnalysisError('String2Key.count int setter vanished')
     rep.saw(fn=setter)
-    pname = setter.params[1]
+    key = '%s.%s' % (setter.params[0], backing)
     for val, want_raise in ((-1, True), (0, False), (255, False), (256, True)):
-        sc = Scenario(args={pname: Const(val)}, inline=lambda f: False)
-        outs = Interp(prog, sc).run(setter)
-        raised = all(s.raised is not None for s in outs)
-        stored = any(p == 'self._count' and v == repr(val) for s in outs for (p, v, l, _) in s.stores)
-        ok = raised if want_raise else (stored and not any(s.raised for s in outs))
+        raised, stores = _count_setter_outcome(prog, setter, val)
+        stored = stores.get(key) == val
+        ok = raised if want_raise else (stored and not raised)
         rep.check(ok, rid, 'String2Key.count_int', 'value %d -> %s' % (val, 'raise' if raised else ('stored' if stored else 'dropped')),
                   'the coded count setter must accept exactly 0..255 and store the octet', where=setter.where,
-                  expected='raise' if want_raise else 'self._count = %d' % val, found='raised=%s stored=%s' % (raised, stored),
+                  expected='raise' if want_raise else 'self.%s = %d' % (backing, val), found='raised=%s stored=%s' % (raised, stored),
                   scenario='val=%d' % val)
 
 
@@ -112,6 +291,54 @@ SPEC_FIELDS = {
 }
 
 
+def _plain_getter_field(ci, first, name):
+    """`name` if it is an ordinary attribute; the backing attribute when `name` is a property whose getter only returns an
+    attribute of the object (halg -> _halg); None when the getter computes something (count decodes the coded octet)."""
+    pp = ci.find_prop(name)
+    getter = pp.getter if pp is not None else (ci.find_plain_prop(name) or {}).get('get')
+    if getter is None:
+        return name
+    body = [st for st in getter.node.body if not (isinstance(st, ast.Expr) and isinstance(st.value, ast.Constant))]
+    if len(body) == 1 and isinstance(body[0], ast.Return) and isinstance(body[0].value, ast.Attribute) and \
+            isinstance(body[0].value.value, ast.Name) and body[0].value.value.id == getter.params[0]:
+        return body[0].value.attr
+    return None
+
+
+def _active_axioms(prog, ci, fn):
+    """Truth of `self` / `bool(self)` in `fn` when the usage octet says an S2K specifier follows: decided by interpreting
+    String2Key.__bool__ under usage = 254 (never assumed)."""
+    b = ci.find_method('__bool__')
+    if b is None:
+        raise AnalysisError('String2Key.__bool__ vanished')
+    outs = Interp(prog, Scenario(bind={'%s.usage' % b.params[0]: Const(254)}, inline=lambda f: False)).run(b)
+    vals = set(render(s.ret) for s in outs)
+    if vals != {'True'}:
+        raise AnalysisError('String2Key.__bool__ does not say that usage 254 carries a specifier: %s' % sorted(vals))
+    first = fn.params[0]
+    ax = {first: True, 'bool(%s)' % first: True}
+    for nm in ('__bool__', '__nonzero__'):
+        ax['%s.%s()' % (first, nm)] = True
+    return ax
+
+
+def _int_text(text, env):
+    """Value of a rendered integer expression under env (the checker's own folding; None when it is not closed)."""
+    try:
+        return num_text(text, env)
+    except (_NoFold, SyntaxError):
+        return None
+
+
+def num_text(text, env):
+    """Value of a rendered arithmetic expression (interpreter value text) under env.  SyntaxError: not an expression;
+    _NoFold: it names something env does not define."""
+    v = fold(ast.parse(text.strip(), mode='eval').body, env)
+    if isinstance(v, Fraction) and v.denominator == 1:
+        return int(v)
+    return v
+
+
 def check_s2k_codec(rep, prog, rid):
     ci = prog.cls('pgpy.packet.fields', 'String2Key')
     wr = ci.methods.get('__bytearray__')
@@ -120,47 +347,86 @@ def check_s2k_codec(rep, prog, rid):
         raise AnalysisError('String2Key codec methods vanished')
     rep.saw(fn=wr)
     rep.saw(fn=rd)
+    backing = count_backing(prog)
     for spec, fields in SPEC_FIELDS.items():
         ec = enum_const(prog, 'String2KeyType', spec)
-        bind = {'self.specifier': ec, 'self.usage': Const(254)}
-        sc = Scenario(bind=dict(bind), axioms={'bool(self)': True, '(self.iv is not None)': True}, inline=lambda f: False)
+        me = wr.params[0]
+        bind = {'%s.specifier' % me: ec, '%s.usage' % me: Const(254), '%s.iv' % me: Sym('%s.iv' % me, nonnull=True)}
+        ax = _active_axioms(prog, ci, wr)
+        ax['%s.iv' % me] = True
+        sc = Scenario(bind=dict(bind), axioms=ax, inline=lambda f: False)
         w = codec.writer_items(prog, wr, sc)
         if len(w) != 1 or w[0][1] is None:
-            raise AnalysisError('String2Key.__bytearray__: %d paths for %s' % (len(w), spec))
+            raise AnalysisError('String2Key.__bytearray__: %d paths for %s (decisions %s)' % (len(w), spec, [x[0].facts for x in w]))
         items = w[0][1]
+        # each emitted item -> (field, width): one octet for everything but salt and iv; a property read through a getter that
+        # only returns its backing attribute is that attribute (halg == _halg), the decoded count is NOT the coded octet
         wnames = []
         for it in items:
-            t = it[1] if it[0] in ('BYTE', 'SYM') else (it[2] if it[0] == 'INT' else render_item(it))
-            wnames.append(t.replace('self._', 'self.').replace('self.', ''))
-        exp_w = ['254', 'encalg', 'String2KeyType.%s' % spec] + fields + ['iv']
-        rep.check(wnames == exp_w, rid, 'String2Key.__bytearray__', '%s: emits %s' % (spec, wnames),
-                  'S2K specifier %s must be written as usage, cipher, specifier, %s, iv' % (spec, ', '.join(fields)), where=wr.where,
-                  expected=exp_w, found=wnames, scenario=spec)
-        # widths: every field but salt/iv is one octet
-        for it in items:
-            if it[0] == 'SYM' and it[1] not in ('self.salt', 'self.iv'):
-                rep.violation(rid, 'String2Key.__bytearray__', '%s: %s' % (spec, render_item(it)), 'unexpected variable-width S2K field',
-                              where=wr.where, scenario=spec)
+            if it[0] == 'BYTE' or (it[0] == 'INT' and it[1] == '1'):
+                t, wd = (it[1] if it[0] == 'BYTE' else it[2]), '1'
+            elif it[0] == 'SYM':
+                t, wd = it[1], '*'
+            else:
+                t, wd = render_item(it), '?'
+            if t.startswith(me + '.') and '.' not in t[len(me) + 1:] and t[len(me) + 1:].isidentifier():
+                f = _plain_getter_field(ci, me, t[len(me) + 1:])
+                t = 'self.%s' % f if f is not None else 'self.%s()' % t[len(me) + 1:]
+            wnames.append((t, wd))
+
+        def fld(n):
+            return 'self.%s' % (backing if n == 'count' else _plain_getter_field(ci, me, n))
+        exp_w = [('254', '1'), (fld('encalg'), '1'), ('String2KeyType.%s' % spec, '1')] + \
+            [(fld(f), '*' if f == 'salt' else '1') for f in fields] + [(fld('iv'), '*')]
+        rep.check(wnames == exp_w, rid, 'String2Key.__bytearray__', '%s: emits %s' % (spec, [n for n, _ in wnames]),
+                  'S2K specifier %s must be written as usage, cipher, specifier, %s, iv (one octet each but salt and iv; the count as '
+                  'its coded octet)' % (spec, ', '.join(fields)), where=wr.where, expected=exp_w, found=wnames, scenario=spec)
         # reader
-        scr = Scenario(bind={'self.specifier': ec, 'self.usage': Const(254)}, axioms={'bool(self)': True},
-                       args={'iv': Const(True)}, inline=lambda f: False, forward_stores=False, model_del=False)
+        me = rd.params[0]
+        ivp = rd.params[2] if len(rd.params) > 2 else 'iv'
+        scr = Scenario(bind={'%s.specifier' % me: ec, '%s.usage' % me: Const(254)}, axioms=_active_axioms(prog, ci, rd),
+                       args={ivp: Const(True)}, inline=lambda f: False, forward_stores=False, model_del=False)
         outs = Interp(prog, scr).run(rd)
         if len(outs) != 1:
-            raise AnalysisError('String2Key.parse: %d paths for %s' % (len(outs), spec))
-        reads, problems = codec.reader_sequence(outs[0], 'packet')
+            raise AnalysisError('String2Key.parse: %d paths for %s (decisions %s)' % (len(outs), spec, [s.facts for s in outs]))
+        reads, problems = codec.reader_sequence(outs[0], rd.params[1])
         for kind, msg, line in problems:
             rep.violation(rid, 'String2Key.parse', '%s: %s' % (spec, msg), 'reader does not consume what it reads: %s' % msg,
                           where='%s:%d' % (rd.module.relpath, line), scenario=spec)
-        rnames = [(r.target or '').replace('self.', '') for r in reads if r.kind.startswith('fixed')]
-        rwidths = [r.width for r in reads if r.kind.startswith('fixed')]
+        fixed = [r for r in reads if r.kind.startswith('fixed')]
+        rnames = [(r.target or '')[len(me) + 1:] if (r.target or '').startswith(me + '.') else (r.target or '') for r in fixed]
+        # widths by value: the IV is one cipher block (block_size is in bits)
+        rwidths = []
+        for r in fixed:
+            vals = []
+            for bs in (64, 128):
+                env = {'%s.encalg.block_size' % me: bs, '%s._encalg.block_size' % me: bs}
+                vals.append(_int_text(r.width or '', env))
+            if vals[0] is not None and vals[0] == vals[1]:
+                rwidths.append(str(vals[0]))
+            elif vals == [8, 16]:
+                rwidths.append('block')
+            else:
+                rwidths.append(r.width)
         exp_r = ['usage', 'encalg', 'specifier'] + fields + ['iv']
-        exp_wd = ['1', '1', '1'] + [{'halg': '1', 'salt': '8', 'count': '1'}[f] for f in fields] + ['(self.encalg.block_size // 8)']
+        exp_wd = ['1', '1', '1'] + [{'halg': '1', 'salt': '8', 'count': '1'}[f] for f in fields] + ['block']
         rep.check(rnames == exp_r and rwidths == exp_wd, rid, 'String2Key.parse', '%s: reads %s widths %s' % (spec, rnames, rwidths),
-                  'S2K specifier %s must be read as usage, cipher, specifier, %s, iv with the RFC widths' % (spec, ', '.join(fields)),
+                  'S2K specifier %s must be read as usage, cipher, specifier, %s, iv with the RFC widths (iv = one cipher block)'
+                  % (spec, ', '.join(fields)),
                   where=rd.where, expected='%s / %s' % (exp_r, exp_wd), found='%s / %s' % (rnames, rwidths), scenario=spec)
     # salt width written by PGPy's own producers is 8 octets (checked at the entropy sites under C13)
     cp = ci.methods.get('__copy__')
     if cp is not None:
-        src = ast.unparse(cp.node)
-        rep.check('s2k.count = self._count' in src.replace('  ', ' '), rid, 'String2Key.__copy__', 'count copied in coded form',
-                  'a copy must carry the coded count octet, not the decoded value', where=cp.where)
+        rep.saw(fn=cp)
+        me = cp.params[0]
+        outs = Interp(prog, Scenario(inline=lambda f: False, forward_stores=False)).run(cp)
+        for s in outs:
+            if not (isinstance(s.ret, Obj) and s.ret.cls is ci):
+                raise AnalysisError('String2Key.__copy__ does not return a locally built String2Key: %s' % render(s.ret))
+            new = render(s.ret)
+            got = [(p2[len(new) + 1:], v) for (p2, v, l, _) in s.stores if p2.startswith(new + '.') and p2[len(new) + 1:] in ('count', backing)]
+            # the int setter of `count` takes the coded octet (C12.3): the copy must be fed the coded octet, whichever way
+            ok = bool(got) and got[-1][1] == '%s.%s' % (me, backing)
+            rep.check(ok, rid, 'String2Key.__copy__', 'count copied in coded form',
+                      'a copy must carry the coded count octet, not the decoded value', where=cp.where,
+                      expected='<copy>.count = self.%s' % backing, found=got)
